@@ -51,11 +51,11 @@ class Spec:
         """The spec's tables must be about the code's primitives, and the harness oracle about the spec's rule."""
         P = drv.prims()
         for w in self.wiring.values():
-            have = drv.required_formals(P[w["prim"]])
+            have = drv.leading_formals(P[w["prim"]], len(w["formals"]))
             if have != list(w["formals"]):
                 raise tlc.MachineryError(f"Facade.tla Formal[{w['prim']}] = {w['formals']} but the code has {have}")
         nh = self.rules["sutton"]["nonhc"]
-        if drv.required_formals(P[nh["prim"]]) != list(nh["formals"]):
+        if drv.leading_formals(P[nh["prim"]], len(nh["formals"])) != list(nh["formals"]):
             raise tlc.MachineryError("make_nonhydrocarbon_properties changed its leading parameters")
         for rec in self.pseudo:
             f = lambda xs: [float(exact.frac(x)) for x in xs]  # noqa: E731
